@@ -461,10 +461,21 @@ func (ex *explorer) expand(h harness) ([]harness, error) {
 	if !ok {
 		return nil, fmt.Errorf("%s_N did not return a concrete int", h.name)
 	}
+	var nameFn *ssa.Function
+	if p := ex.w.ssaPkgs[h.pkg]; p != nil {
+		nameFn = p.Func(h.fn.Name() + "_Name")
+	}
 	var out []harness
 	for i := 0; i < n; i++ {
 		hi := h
 		hi.name = fmt.Sprintf("%s#%d", h.name, i)
+		if nameFn != nil {
+			if _, status, _ := wk.runPath(nameFn, h.name+"_Name", prefix{}, ex.b, []value{i}); status == "ok" {
+				if s, ok := wk.lastResult.(string); ok {
+					hi.name = fmt.Sprintf("%s#%d:%s", h.name, i, s)
+				}
+			}
+		}
 		hi.arg = i
 		hi.hasArg = true
 		out = append(out, hi)
